@@ -206,6 +206,41 @@ pub fn check_sums_f<F: Fl>(c: &SumCase) -> CheckResult {
         let rel = 2.0 * g * mean_abs_log + 16.0 * F::U;
         ensure!((gm - reference).abs() <= reference * rel, "tolerance", "geometric_mean = {:e}, reference {:e}, relative budget {:e} (data {:?})", gm, reference, rel, pos);
     }
+    // the same positive data scaled by a huge / tiny power of two: both means scale exactly
+    if hg && !F::IS32 {
+        for e in [400i32, -400, 700, -700] {
+            let sc = 2f64.powi(e);
+            let scaled: Vec<F> = pos.iter().map(|x| F::from64(x.to64() * sc)).collect();
+            if scaled.iter().any(|x| !x.is_finite() || *x <= F::zero() || x.to64() < 1e-300) {
+                continue;
+            }
+            let ls = Laid::new(&c.layout_d, &c.shape, &scaled);
+            let sv = ls.view();
+            let logs: Vec<f64> = scaled.iter().map(|x| x.to64().ln()).collect();
+            let mean_log = comp_sum(logs.iter().cloned()) / n as f64;
+            let mean_abs_log = comp_sum(logs.iter().map(|l| l.abs())) / n as f64;
+            let rel = 2.0 * g * mean_abs_log + 16.0 * F::U;
+            // compare in the log domain so that the reference itself cannot overflow
+            match catch(|| sv.geometric_mean()) {
+                Ok(Ok(r)) => {
+                    let r = r.to64();
+                    ensure!(r.is_finite() && r > 0.0 && (r.ln() - mean_log).abs() <= rel + 4.0 * F::U * mean_log.abs(), "tolerance", "geometric_mean of data scaled by 2^{} = {:e}, but exp(mean ln x) has ln = {:e} (relative budget {:e}); data {:?}", e, r, mean_log, rel, scaled);
+                }
+                Ok(Err(er)) => fail!("error-kind", "geometric_mean returned {:?}", er),
+                Err(p) => fail!("panic", "geometric_mean panicked: {}", p),
+            }
+            match catch(|| sv.harmonic_mean()) {
+                Ok(Ok(r)) => {
+                    let rsum = sum_dy(scaled.iter().map(|&x| recip_dy(&dy(x))));
+                    let nn = Dy::from_i128(n as i128);
+                    let lhs = Dy::from_f64(r.to64()).mul(&rsum).sub(&nn).abs();
+                    ensure!(r.is_finite() && lhs.le(&nn.mul(&gdy(g + 8.0 * F::U))), "tolerance", "harmonic_mean of data scaled by 2^{} = {:e}, exact {:e}", e, r, ratio(&nn, &rsum));
+                }
+                Ok(Err(er)) => fail!("error-kind", "harmonic_mean returned {:?}", er),
+                Err(p) => fail!("panic", "harmonic_mean panicked: {}", p),
+            }
+        }
+    }
     let nonuniform = w_nonneg.iter().any(|w| *w != w_nonneg[0]);
     let mixed = data.iter().any(|x| *x < F::zero()) && data.iter().any(|x| *x > F::zero());
     Ok(Info::new(n >= 3 && (nonuniform || mixed))
@@ -588,6 +623,11 @@ pub fn float_data(f32_: bool, n: usize) -> BoxedStrategy<Vec<i128>> {
         2 => proptest::collection::vec((any::<bool>(), -emax..emax, any::<u32>()), n).prop_map(move |v| v.into_iter().map(|(s, e, m)| enc(if s { -1.0 } else { 1.0 } * mant(m) * 2f64.powi(e))).collect::<Vec<_>>()),
         // positive only
         1 => proptest::collection::vec((-8i32..9, any::<u32>()), n).prop_map(move |v| v.into_iter().map(|(e, m)| enc(mant(m) * 2f64.powi(e))).collect::<Vec<_>>()),
+        // everything small (or large): a common power-of-two scale on moderate data
+        2 => (proptest::collection::vec((any::<bool>(), -3i32..4, any::<u32>()), n), prop_oneof![Just(-30i32), Just(-20), Just(-12), Just(10), Just(25)]).prop_map(move |(v, sc)| {
+            let sc = if f32_ { sc / 3 } else { sc };
+            v.into_iter().map(|(s, e, m)| enc(if s { -1.0 } else { 1.0 } * mant(m) * 2f64.powi(e + sc))).collect::<Vec<_>>()
+        }),
     ]
     .boxed()
 }
